@@ -17,7 +17,8 @@ func vC07Cb(L int) {
 	}
 	hooks := vInstallHooks()
 	in := vLegalScript("s", L)
-	plan := &vFaultPlan{pos: op.cbs[vChoice("fpos", len(op.cbs))], idx: vChoice("fidx", L), kind: vChoice("fkind", 2), counts: map[string]int{}}
+	rec := &vRecorder{}
+	plan := &vFaultPlan{pos: op.cbs[vChoice("fpos", len(op.cbs))], idx: vChoice("fidx", L), kind: vChoice("fkind", 2), counts: map[string]int{}, rec: rec}
 	vFault = plan
 	defer func() { vFault = nil }()
 	p := &vProbe{name: "src"}
@@ -27,7 +28,6 @@ func vC07Cb(L int) {
 		p.script = in
 	}
 	c := &vCtx{src: []Observable[int64]{p}, L: L}
-	rec := &vRecorder{}
 	var escaped interface{}
 	func() {
 		defer func() { escaped = recover() }()
@@ -44,13 +44,18 @@ func vC07Cb(L int) {
 	if plan.fired > 0 {
 		vAssert(plan.fired == 1, op.name+": the callback kept being invoked after it had failed")
 		n := len(rec.evs)
-		vAssert(n > 0 && rec.evs[n-1].kind == vkError, op.name+": a panic in a user callback did not surface as an Error notification")
-		if plan.kind == 0 {
-			vAssert(errors.Is(rec.evs[n-1].err, vErrB), op.name+": the Error notification does not match the original cause")
+		if plan.termsAtFire > 0 {
+			// the output had already terminated when the callback failed: nobody can
+			// receive the failure, it must reach one of the hooks
+			vAssert(hooks.unhandled+hooks.dropped > 0, op.name+": a failure nobody can receive did not reach the unhandled-error hook")
+		} else {
+			vAssert(n > 0 && rec.evs[n-1].kind == vkError, op.name+": a panic in a user callback did not surface as an Error notification")
+			if plan.kind == 0 {
+				vAssert(errors.Is(rec.evs[n-1].err, vErrB), op.name+": the Error notification does not match the original cause")
+			}
+			vAssert(p.live == 0, op.name+": the source was not released after the failure")
 		}
-		vAssert(p.live == 0, op.name+": the source was not released after the failure")
 	}
-	_ = hooks
 	vReach("end")
 }
 
